@@ -236,3 +236,97 @@ Lemma cgmy_sync1 r f v : cgmy_valid r = true ->
   cgmy_rebuild fgamma fpow (fst (cgmy_set r f v)) = Some (cgmy_initialisation fgamma fpow (fst (cgmy_set r f v))).
 Proof. intro H. exact (cgmy_sync fgamma fpow [(f, v)] r H). Qed.
 End CalibInst.
+
+(* ------------------------------------------------------------------ statements as they appear in Properties/C20.v *)
+Lemma init_eq_reinit_all : forall (fsqrt fgamma : Q -> Q) (fpow : Q -> Q -> Q),
+  (forall sigma p eta1 eta2 intensity, hem_init_xi sigma p eta1 eta2 intensity = hem_reinit_xi sigma p eta1 eta2 intensity)
+  /\ (forall sigma nu theta,
+        vg_init_c fsqrt sigma nu theta = vg_reinit_c fsqrt sigma nu theta
+        /\ vg_init_lambda_p fsqrt sigma nu theta = vg_reinit_lambda_p fsqrt sigma nu theta
+        /\ vg_init_lambda_m fsqrt sigma nu theta = vg_reinit_lambda_m fsqrt sigma nu theta)
+  /\ (forall c g m y,
+        cgmy_init_CGammamY fgamma fpow c g m y = cgmy_reinit_CGammamY fgamma fpow c g m y
+        /\ cgmy_init_MpowerY fgamma fpow c g m y = cgmy_reinit_MpowerY fgamma fpow c g m y
+        /\ cgmy_init_GpowerY fgamma fpow c g m y = cgmy_reinit_GpowerY fgamma fpow c g m y).
+Proof. intros. split; [exact hem_init_eq_reinit | split; [exact (vg_init_eq_reinit fsqrt) | exact (cgmy_init_eq_reinit fgamma fpow)]]. Qed.
+
+Lemma sync_after_any_history_all : forall (fsqrt fgamma : Q -> Q) (fpow : Q -> Q -> Q),
+  (forall sigma p eta1 eta2 intensity r0 ops, hem_construct sigma p eta1 eta2 intensity = Some r0 ->
+     hem_rebuild (hem_run ops r0) = Some (hem_initialisation (hem_run ops r0)))
+  /\ (forall sigma mu_j sigma_j intensity r0 ops, merton_construct sigma mu_j sigma_j intensity = Some r0 ->
+     merton_rebuild (merton_run ops r0) = Some (merton_initialisation (merton_run ops r0)))
+  /\ (forall sigma nu theta r0 ops, vg_construct fsqrt sigma nu theta = Some r0 ->
+     vg_rebuild fsqrt (vg_run ops r0) = Some (vg_initialisation fsqrt (vg_run ops r0)))
+  /\ (forall c g m y r0 ops, cgmy_construct fgamma fpow c g m y = Some r0 ->
+     cgmy_rebuild fgamma fpow (cgmy_run ops r0) = Some (cgmy_initialisation fgamma fpow (cgmy_run ops r0))).
+Proof.
+  intros. repeat split; intros.
+  - apply hem_sync. eapply hem_construct_valid; eassumption.
+  - apply merton_sync. eapply merton_construct_valid; eassumption.
+  - apply vg_sync. eapply vg_construct_valid; eassumption.
+  - apply cgmy_sync. eapply cgmy_construct_valid; eassumption.
+Qed.
+
+Lemma constraints_all :
+  (forall r f v, hem_guard f v = false -> hem_set r f v = (r, false))
+  /\ (forall r f v, hem_guard f v = true -> hem_set r f v = (hem_write f v r, true))
+  /\ (forall v, (hem_guard HSigma v = true <-> 0 <= v) /\ (hem_guard HP v = true <-> 0 < v) /\ (hem_guard HEta1 v = true <-> 0 < v)
+        /\ (hem_guard HEta2 v = true <-> 0 < v) /\ (hem_guard HIntensity v = true <-> 0 <= v) /\ hem_guard HXi v = true)
+  /\ (forall r f v, merton_guard f v = false -> merton_set r f v = (r, false))
+  /\ (forall r f v, merton_guard f v = true -> merton_set r f v = (merton_write f v r, true))
+  /\ (forall v, (merton_guard MSigma v = true <-> 0 <= v) /\ (merton_guard MMuJ v = true <-> 0 <= v)
+        /\ (merton_guard MSigmaJ v = true <-> 0 < v) /\ (merton_guard MIntensity v = true <-> 0 <= v))
+  /\ (forall r f v, vg_guard f v = false -> vg_set r f v = (r, false))
+  /\ (forall r f v, vg_guard f v = true -> vg_set r f v = (vg_write f v r, true))
+  /\ (forall v, (vg_guard VSigma v = true <-> 0 <= v) /\ vg_guard VNu v = true /\ vg_guard VTheta v = true
+        /\ vg_guard VC v = true /\ vg_guard VLambdaP v = true /\ vg_guard VLambdaM v = true)
+  /\ (forall r f v, cgmy_guard f v = false -> cgmy_set r f v = (r, false))
+  /\ (forall r f v, cgmy_guard f v = true -> cgmy_set r f v = (cgmy_write f v r, true))
+  /\ (forall v, (cgmy_guard CC v = true <-> 0 < v) /\ (cgmy_guard CG v = true <-> 0 <= v) /\ (cgmy_guard CM v = true <-> 0 <= v)
+        /\ (cgmy_guard CY v = true <-> v < 2) /\ cgmy_guard CCGammamY v = true /\ cgmy_guard CMpowerY v = true /\ cgmy_guard CGpowerY v = true).
+Proof.
+  repeat apply conj.
+  - exact hem_set_rejects. - exact hem_set_accepts. - exact hem_guard_spec.
+  - exact merton_set_rejects. - exact merton_set_accepts. - exact merton_guard_spec.
+  - exact vg_set_rejects. - exact vg_set_accepts. - exact vg_guard_spec.
+  - exact cgmy_set_rejects. - exact cgmy_set_accepts. - exact cgmy_guard_spec.
+Qed.
+
+Lemma calibration_spec_all : forall (fsqrt fgamma : Q -> Q) (fpow : Q -> Q -> Q),
+  (forall price r0 f market a b tol x, hem_valid r0 = true ->
+     Root HemRec HemField hem_set hem_initialisation price r0 f market a b tol x ->
+     let out := run_default_calibration_model HemRec HemField hem_set hem_initialisation r0 f x in
+     fst out = r0 /\ (a <= x /\ x <= b) /\ hem_rebuild (fst (hem_set r0 f x)) = Some (snd out) /\ Qabs (price (snd out) - market) <= tol)
+  /\ (forall price r0 f market a b tol x, merton_valid r0 = true ->
+     Root MertonRec MertonField merton_set merton_initialisation price r0 f market a b tol x ->
+     let out := run_default_calibration_model MertonRec MertonField merton_set merton_initialisation r0 f x in
+     fst out = r0 /\ (a <= x /\ x <= b) /\ merton_rebuild (fst (merton_set r0 f x)) = Some (snd out) /\ Qabs (price (snd out) - market) <= tol)
+  /\ (forall price r0 f market a b tol x, vg_valid r0 = true ->
+     Root VgRec VgField vg_set (vg_initialisation fsqrt) price r0 f market a b tol x ->
+     let out := run_default_calibration_model VgRec VgField vg_set (vg_initialisation fsqrt) r0 f x in
+     fst out = r0 /\ (a <= x /\ x <= b) /\ vg_rebuild fsqrt (fst (vg_set r0 f x)) = Some (snd out) /\ Qabs (price (snd out) - market) <= tol)
+  /\ (forall price r0 f market a b tol x, cgmy_valid r0 = true ->
+     Root CgmyRec CgmyField cgmy_set (cgmy_initialisation fgamma fpow) price r0 f market a b tol x ->
+     let out := run_default_calibration_model CgmyRec CgmyField cgmy_set (cgmy_initialisation fgamma fpow) r0 f x in
+     fst out = r0 /\ (a <= x /\ x <= b) /\ cgmy_rebuild fgamma fpow (fst (cgmy_set r0 f x)) = Some (snd out)
+     /\ Qabs (price (snd out) - market) <= tol).
+Proof.
+  intros. repeat apply conj; intros price r0 f market a b tol x Hv HR.
+  - exact (calibration_spec _ _ _ _ _ hem_valid price hem_sync1 r0 f market a b tol x Hv HR).
+  - exact (calibration_spec _ _ _ _ _ merton_valid price merton_sync1 r0 f market a b tol x Hv HR).
+  - exact (calibration_spec _ _ _ _ _ vg_valid price (vg_sync1 fsqrt) r0 f market a b tol x Hv HR).
+  - exact (calibration_spec _ _ _ _ _ cgmy_valid price (cgmy_sync1 fgamma fpow) r0 f market a b tol x Hv HR).
+Qed.
+
+Lemma nonvacuous_c20 :
+  match hem_construct (1#20) (3#5) 20 25 3 with
+  | Some r0 =>
+      let r := hem_run [(HEta1, 10); (HP, -1); (HXi, 7); (HP, 1#2)] r0 in
+      snd (hem_set r0 HP (-1)) = false /\ h_p r = 1#2 /\ h_xi r = 7
+      /\ Qeq_bool (h_xi (hem_initialisation r)) ((5#9) + (25#52) - 1) = true
+      /\ hem_rebuild r = Some (hem_initialisation r)
+  | None => False
+  end
+  /\ hem_construct (1#20) (-1) 20 25 3 = None
+  /\ cgmy_construct (fun x => x) (fun x y => x) 1 15 20 2 = None.
+Proof. vm_compute. repeat split. Qed.
